@@ -679,6 +679,32 @@ def run_invalid(name, fn, ctx):
             edzed.get_circuit().finalize()
         except Exception:
             stage = 'finalize'
+    if stage == 'finalize':
+        # the application catches the error and tries again with the very same circuit: a
+        # second finalize() and a start must fail as well (nothing may have been 'forgotten')
+        ctx.count('retries_after_failed_finalize')
+        retry = {}
+        try:
+            edzed.get_circuit().finalize()
+            retry['finalize'] = 'accepted'
+        except Exception:   # pylint: disable=broad-except
+            retry['finalize'] = 'refused'
+
+        async def retry_main(loop):
+            sim = harness.Sim()
+            retry['started'] = await sim.start()
+            await sim.stop()
+        try:
+            vloop.run(retry_main)
+        except Exception:   # pylint: disable=broad-except
+            retry['started'] = False
+        if retry['finalize'] == 'accepted' or retry.get('started'):
+            ctx.violation(case, f"invalid-reference-accepted-on-retry-{name}",
+                          f"invalid circuit ({name}): the first finalize() failed, the second "
+                          f"attempt: finalize() {retry['finalize']}, started={retry.get('started')}")
+            ctx.case_done(case, True)
+            edzed.reset_circuit()
+            return
     if stage is None or stage == 'finalize':
         # ... and it must not start either (fresh circuit: finalize() must not be a loophole)
         edzed.reset_circuit()
